@@ -369,6 +369,7 @@ def finish(prop, tier, seed, meta, results, wall):
             'per_configuration': per_cfg if len(per_cfg) <= 80 else per_cfg[:80],
             'inconclusive': inconclusive[:20],
             'known_findings_matched': [known_open[k]['what'] for k in known_hit],
+            **({'kernels_crosshair': meta['kernels']} if meta.get('kernels') else {}),
             'unknown_solver_answers': sum(1 for i in inconclusive if 'unknown' in i),
         },
         'assumptions': meta.get('assumptions', []),
